@@ -252,6 +252,32 @@ func dirTriple(d *lib.Dir) string {
 func propC18(r *Run) {
 	inAgentBubble(r, func(w *AWorld) {
 		// ---- (a) loader exactness and usability of every accepted set (library level) ----
+		if r.Choose("odd-basedir", 4) == 0 {
+			// base directories that are ordinary non-empty strings to the loader but would mean something
+			// else to a shell, a template engine or a path cleaner: the configuration is well-formed, and
+			// whatever the loader makes of the string, the store it returns has a base directory
+			odd := []string{"${STATE_DIRECTORY}", "$WHAWTY_UNSET", "${A}${B}", "$", "~", " ", "%s", "{{.Base}}", "\\x00"}[r.Choose("odd-basedir-kind", 9)]
+			path := "/etc/whawty/probe-odd.yaml"
+			text := fmt.Sprintf("basedir: %q\n", odd)
+			w.fs.Put(path, []byte(text), 0o600)
+			var d *lib.Dir
+			var err error
+			func() {
+				defer func() {
+					if x := recover(); x != nil {
+						r.Fail("loader/crash", "NewDirFromConfig panicked on:\n%s\n%v", text, x)
+					}
+				}()
+				d, err = lib.NewDirFromConfig(path)
+			}()
+			r.Logf("odd base directory %q -> err=%v", odd, err)
+			r.Count("probe:odd-base-directory")
+			if err != nil {
+				r.Fail("loader/rejects-valid", "well-formed configuration rejected: %v\n%s", err, text)
+			} else if d == nil || d.BaseDir == "" {
+				r.Fail("loader/accepts-empty-basedir", "the loader accepted a configuration and returned a store with an empty base directory (every record would be resolved against the working directory):\n%s", text)
+			}
+		}
 		nd := 1 + r.Choose("ndocs", 3)
 		for k := 0; k < nd; k++ {
 			doc := genDoc(r, "/srv/whawty/probe")
